@@ -20,8 +20,13 @@ class Luhn10(Validator):
 def luhn10_check(number):
     """Return True if the number passes the Luhn checksum algorithm."""
 
-    if number < 0:
+    try:
+        if number < 0 or number != int(number):
+            return False
+    except (ArithmeticError, ValueError):
+        # NaN or an infinity (float or Decimal): not a string of digits
         return False
+    number = int(number)
 
     sum = 0
     while number:
